@@ -91,6 +91,7 @@ type scope struct {
 	bucketCache *bucketCache
 	closed      atomic.Bool
 	done        chan struct{}
+	closeDone   chan struct{}
 	wg          sync.WaitGroup
 	root        bool
 	testScope   bool
@@ -172,6 +173,7 @@ func newRootScope(opts ScopeOptions, interval time.Duration) *scope {
 		countersSlice:   make([]*counter, 0, _defaultInitialSliceSize),
 		defaultBuckets:  opts.DefaultBuckets,
 		done:            make(chan struct{}),
+		closeDone:       make(chan struct{}),
 		gauges:          make(map[string]*gauge),
 		gaugesSlice:     make([]*gauge, 0, _defaultInitialSliceSize),
 		histograms:      make(map[string]*histogram),
@@ -531,6 +533,12 @@ func (s *scope) Close() error {
 	// n.b. Once this flag is set, the next scope report will remove it from
 	//      the registry and clear its metrics.
 	if !s.closed.CAS(false, true) {
+		if s.root {
+			// Another caller is closing, or has closed, the root: return
+			// only once that shutdown is complete (as sync.Once does), so
+			// that every caller can rely on Close as a barrier.
+			<-s.closeDone
+		}
 		return nil
 	}
 
@@ -539,6 +547,7 @@ func (s *scope) Close() error {
 	verifhook.Yield("close.post-done")
 
 	if s.root {
+		defer close(s.closeDone)
 		// Wait for the report loop (if any) to leave its current pass and
 		// exit, so that the final report below is the last one and sees
 		// everything recorded before Close; only then drop the subscopes.
